@@ -36,7 +36,8 @@ Record rstage := {
   rs_users : Z;                       (* UsersConcurrency; 0 for a rate stage *)
   rs_params : list (str * str);
   rs_desc : option rate_desc;
-  rs_jitter : Z
+  rs_jitter : Z;                      (* float64 bits of the jitter percentage in force for the stage *)
+  rs_plain : bool                     (* distribution none *)
 }.
 
 Record plan := {
@@ -62,7 +63,11 @@ Definition params_of (s d : stage_cfg) : list (str * str) :=
 Definition parse_stage (s d : stage_cfg) (dur : Z) (mode : str) : res rstage :=
   let jit := match fld sc_jitter s d with Some j => j | None => 0 end in
   let mk (r : rates) := Ok {| rs_duration := dur; rs_interval := r_interval r; rs_users := 0;
-                             rs_params := params_of s d; rs_desc := Some (r_desc r); rs_jitter := jit |} in
+                             rs_params := params_of s d; rs_desc := Some (r_desc r); rs_jitter := jit;
+                             rs_plain := match fld sc_distribution s d with
+                                         | Some dist => match dkind_of_str dist with DNone => true | _ => false end
+                                         | None => false
+                                         end |} in
   if str_eqb mode (s_of "constant"%string) then
     need (fld sc_rate s d) (fun rate =>
     need (fld sc_distribution s d) (fun dist =>
@@ -90,7 +95,7 @@ Definition parse_stage (s d : stage_cfg) (dur : Z) (mode : str) : res rstage :=
     need (fld sc_concurrency s d) (fun c =>
     if c <? 1 then Err else
     Ok {| rs_duration := dur; rs_interval := 0; rs_users := c; rs_params := params_of s d;
-          rs_desc := None; rs_jitter := 0 |})
+          rs_desc := None; rs_jitter := 0; rs_plain := false |})
   else Err.
 
 (* the loop of ParseConfigFile over the stages: cum is the cumulative duration
@@ -139,6 +144,36 @@ Definition parse_config (c : config) (now : Z) : res plan :=
           p_max_duration := maxd; p_concurrency := conc; p_max_iterations := maxi;
           p_max_failures := mf; p_max_failures_rate := mfr; p_ignore_dropped := ign |})
   end))))).
+
+(* What repeated evaluation of a stage's rate function at one instant must show of the jitter in
+   force (0: every value is the same - the jitter is zero; 1: the values vary - the jitter moves a
+   constant rate by 5 or more; 2: no expectation: other modes and distributions vary by
+   themselves, small amplitudes may round away). A jitter of the stage itself, 0 included, wins
+   over the default section's. *)
+Definition jitter_expect (s : rstage) : Z :=
+  match rs_desc s with
+  | Some (RConst n) =>
+    if rs_plain s then
+      let j := f_of_bits (rs_jitter s) in
+      if f_eq j f_zero then 0
+      else if f_le (f_of_Z 500) (f_mul (f_of_Z n) j) && f_lt j (f_of_Z 100) then 1 else 2
+    else 2
+  | _ => 2
+  end.
+
+Fixpoint jitter_obs_match (l : list rstage) (obs : list Z) : bool :=
+  match l, obs with
+  | [], [] => true
+  | s :: l', o :: obs' =>
+    (match jitter_expect s with 0 => o =? 0 | 1 => o =? 1 | _ => true end) && jitter_obs_match l' obs'
+  | _, _ => false
+  end.
+
+Definition config_jitter_ok (c : config) (now : Z) (obs : list Z) : bool :=
+  match parse_config c now with
+  | Ok p => jitter_obs_match (p_stages p) obs
+  | _ => false
+  end.
 
 (* "can run" *)
 Definition runnable_stage (s : rstage) : Prop :=
